@@ -161,7 +161,7 @@ func e15Case(seed uint64, kind string, k int, v int) Case {
 func init() {
 	register("E15", func(tier string, seed uint64) []Case {
 		var cases []Case
-		nv := tierPick(tier, 3, 150)
+		nv := tierPick(tier, 3, 1000)
 		for _, kind := range []string{"list-error", "non-list", "non-objects", "no-accessor", "nil-nil", "status-object", "error-with-empty-list", "close", "cancel"} {
 			for k := 1; k <= 4; k++ {
 				for v := 0; v < nv; v++ {
@@ -170,7 +170,7 @@ func init() {
 			}
 		}
 		// watch failures are never fatal: E5's enumeration (reports C14/watch-failure-fatal)
-		nh := tierPick(tier, 1, 20)
+		nh := tierPick(tier, 1, 60)
 		for h := 0; h < nh; h++ {
 			hs := kit.Mix(seed, uint64(h)+99) % 100000
 			for pos := 0; pos <= 12; pos += 2 {
